@@ -122,3 +122,60 @@ fn c03_gas_is_inherited_and_bounded() {
     }
     println!("CASES c03_gas 10");
 }
+
+/// "analysis terminates": small programs of every ending shape — the last bytes are the immediate of a complete PUSHn, a
+/// cut-short PUSHn, a JUMPDEST, a plain opcode — reached straight-line, through JUMP and by a forked thread, under small
+/// limits; VM::execute must return within a generous wall-clock budget (a watchdog flag is raised after it so that a
+/// looping run that still polls ends; a run that does not even poll is left behind and reported).
+#[test]
+fn c03_execution_of_every_ending_shape_returns() {
+    use std::{sync::{atomic::{AtomicBool, Ordering}, mpsc, Arc}, time::Duration};
+    use storage_layout_extractor::watchdog::FlagWatchdog;
+    std::panic::set_hook(Box::new(|_| {}));
+    let endings: Vec<(&str, Vec<u8>)> = vec![
+        ("complete PUSH1", vec![0x60, 0x2a]), ("complete PUSH2", vec![0x61, 0xbe, 0xef]), ("complete PUSH32", { let mut v = vec![0x7f]; v.extend([0x5b; 32]); v }),
+        ("cut-short PUSH2", vec![0x61, 0xaa]), ("cut-short PUSH32", vec![0x7f, 0x5b, 0x5b]), ("bare PUSH1", vec![0x60]),
+        ("JUMPDEST", vec![0x5b]), ("ADD", vec![0x01]), ("POP of a push", vec![0x60, 0x01, 0x50]), ("PUSH0", vec![0x5f]), ("DUP1 of a push", vec![0x5f, 0x80]),
+    ];
+    let mut progs: Vec<(String, Vec<u8>)> = vec![];
+    for (name, e) in &endings {
+        progs.push((format!("{name} alone"), e.clone()));
+        let mut p = vec![0x60, 0x01, 0x60, 0x00, 0x55]; p.extend(e); progs.push((format!("sstore then {name}"), p));
+        // CALLDATASIZE PUSH1 5 JUMPI STOP JUMPDEST <ending>
+        let mut p = vec![0x36, 0x60, 0x05, 0x57, 0x00, 0x5b]; p.extend(e); progs.push((format!("forked thread runs into {name}"), p));
+        // PUSH1 3 JUMP JUMPDEST <ending>
+        let mut p = vec![0x60, 0x03, 0x56, 0x5b]; p.extend(e); progs.push((format!("JUMP then {name}"), p));
+        // loop head before the ending: JUMPDEST CALLDATASIZE PUSH1 0 JUMPI <ending>
+        let mut p = vec![0x5b, 0x36, 0x60, 0x00, 0x57]; p.extend(e); progs.push((format!("loop then {name}"), p));
+    }
+    let n = progs.len();
+    let mut hung = 0;
+    for (what, code) in progs {
+        for permissive in [false, true] {
+            // every run that does not return leaves a spinning thread behind: three are enough to report
+            if hung >= 3 { continue; }
+            let (tx, rx) = mpsc::channel();
+            let flag = Arc::new(AtomicBool::new(false));
+            let (c2, f2) = (code.clone(), flag.clone());
+            let _ = std::thread::spawn(move || {
+                let r = std::panic::catch_unwind(move || {
+                    let Ok(is) = InstructionStream::try_from(c2.as_slice()) else { return };
+                    let cfg = Config::default().with_permissive_errors(permissive).with_max_iterations_per_opcode(3).with_max_forks_per_fork_target(4);
+                    let Ok(mut vm) = VM::new(is, cfg, FlagWatchdog::new(f2).polling_every(50).in_rc()) else { return };
+                    let _ = vm.execute();
+                });
+                let _ = tx.send(r.is_ok());
+            });
+            match rx.recv_timeout(Duration::from_secs(30)) {
+                Ok(_) => {}
+                Err(_) => {
+                    hung += 1;
+                    flag.store(true, Ordering::Relaxed);
+                    let stopped = rx.recv_timeout(Duration::from_secs(5)).is_ok();
+                    witness("C03", "limits.execution_returns", format!("{what} (permissive={permissive}): {code:02x?}"), format!("VM::execute did not return within 30 s ({})", if stopped { "ended by the watchdog afterwards" } else { "and does not poll the watchdog either" }), "returns (3 iterations per opcode, 4 forks per target, default gas)".into());
+                }
+            }
+        }
+    }
+    println!("CASES c03_ending_shapes {n}");
+}
